@@ -24,7 +24,7 @@ SPECS = {
     "lalrconflict": 'grammar calc;\nstart = e;\ne = e "+" e | "x";\n',
 }
 NAMES = {"valid": "pkgx", "invalid": "9bad", "keyword": "func", "hyphen": "my-lang", "dot": "lang.v2", "space": "calc 2", "slash": "sub/pkgx",
-         "underscore": "_x1"}
+         "underscore": "_x1", "supnum": "v\u00b2", "unidigit": "x\u0663"}
 
 
 def snapshot(root):
@@ -115,6 +115,10 @@ def run_one(args):
     if rc == 0 and eff_outstate == "dir":
         complete = all((os.path.join(os.path.relpath(pkg, root), f) in post and post[os.path.join(os.path.relpath(pkg, root), f)][1] == ref.get((cfg["input"], name, f)))
                        for f in FILES)
+    # names a TLA+ string cannot spell are known to the model under an ASCII alias
+    alias = {"v\u00b2": "v2sup", "x\u0663": "x3arabic"}
+    if name in alias:
+        created = [c.replace(name, alias[name]) for c in created]
     obs = {"id": "c%d" % i, "cfg": dict(cfg, outstate=eff_outstate), "argv": argv, "exit0": rc == 0, "rc": rc,
            "success": "Successful" in out or "Successful" in err, "created": created, "modified": modified,
            "complete": complete, "stacktrace": ("goroutine " in err or "panic:" in err or "goroutine " in out),
@@ -126,7 +130,7 @@ def run_one(args):
 def reference_hashes(ck, binary):
     """the bytes of a complete package, from one clean run per package name"""
     ref = {}
-    for inp, name in [(i, n) for i in ("valid", "validnoterm", "validfull") for n in ("calc", "pkgx", "_x1")] + [("validkw", "type"), ("validkw", "pkgx"), ("validkw", "_x1")]:
+    for inp, name in [(i, n) for i in ("valid", "validnoterm", "validfull") for n in ("calc", "pkgx", "_x1", "x\u0663")] + [("validkw", "type"), ("validkw", "pkgx"), ("validkw", "_x1"), ("validkw", "x\u0663")]:
         d = os.path.join(ck.work, "cli", "ref-%s-%s" % (inp, name))
         os.makedirs(d)
         open(os.path.join(d, "g.ebnf"), "w").write(SPECS[inp])
